@@ -32,16 +32,28 @@ def scapy_walk_hits_short_ao(opts):
     return False
 
 
+def _is_f26(ver, raw_hex):
+    raw = bytes.fromhex(raw_hex)
+    off = (raw[0] & 15) * 4 if ver == "4" else 40
+    t = raw[off:]
+    if len(t) >= 20:
+        hl = (t[12] >> 4) * 4
+        return scapy_walk_hits_short_ao(t[20:hl])
+    return False
+
+
 def classify(f, known):
     # F26: Scapy cannot dissect the TCP layer when its option walk reaches a TCP-AO option with a value shorter than 2 bytes
     if f.op and f.impl == "ERR packet" and f.op.startswith(("wire", "printsig")):
-        raw = bytes.fromhex(f.op.split("\t")[2])
-        ver = f.op.split("\t")[1]
-        off = (raw[0] & 15) * 4 if ver == "4" else 40
-        t = raw[off:]
-        if len(t) >= 20:
-            hl = (t[12] >> 4) * 4
-            if scapy_walk_hits_short_ao(t[20:hl]):
+        if _is_f26(f.op.split("\t")[1], f.op.split("\t")[2]):
+            return "F26"
+    if f.op and f.op.startswith("seq\t") and f.impl and f.model:
+        # a history: F26 only if every part that differs is an F26 packet answered with PacketError
+        parts = f.op.split("\t")[1:]
+        ia, ma = f.impl.split(" ;; "), f.model.split(" ;; ")
+        if len(ia) == len(ma) == len(parts):
+            diff = [(p, a) for p, a, b in zip(parts, ia, ma) if a != b]
+            if diff and all(a == "ERR packet" and p.split("\x1f")[0] == "wire" and _is_f26(p.split("\x1f")[1], p.split("\x1f")[2]) for p, a in diff):
                 return "F26"
     return None
 
@@ -106,5 +118,25 @@ def run(ctx):
         v, b = wiregen.rand_packet(r)
         ops.append("wire\t%s\t%s\t%d" % (v, b.hex(), r.choice([0, 0, 1460, 5, 65535])))
     ctx.correspond(ops, nontrivial=nt, label="random")
+    # 5. short histories in one process: the same option bytes on an initial SYN and on another segment (the peer-timestamp
+    #    quirk depends on the packet type, the option walk must not remember the previous packet), the same segment under
+    #    both IP versions, and a packet repeated after others
+    ops = []
+    for _ in range(ctx.n(3000, 60000)):
+        opts = b"\x08\x0a" + struct.pack("!II", r.choice([0, 5, 2**32 - 1]), r.choice([0, 7, 9])) + r.choice([b"\x01\x01", b"\x03\x03\x0f", b"\x01\x00"])
+        opts += b"\x01" * (-len(opts) % 4)
+        if r.random() < 0.3:
+            opts = wiregen.option_area(r)[:40]
+        seq_ops = []
+        flags_seq = r.sample([0x02, 0x12, 0x02, 0x10, 0x0a, 0x12], r.randint(2, 4))
+        for fl in flags_seq:
+            tcp = wiregen.tcp_header(r, flags=fl, opts=opts, seq=7, ack=0 if fl == 2 else 9, urp=0, res=0)
+            raw = wiregen.ipv4(r, tcp, ipopts=b"") if r.random() < 0.7 else wiregen.ipv6(r, tcp)
+            ver = "4" if raw[0] >> 4 == 4 else "6"
+            seq_ops.append("\x1f".join(["wire", ver, raw.hex(), "0"]))
+        if r.random() < 0.5:
+            seq_ops.append(seq_ops[0])
+        ops.append("seq\t" + "\t".join(seq_ops))
+    ctx.correspond(ops, nontrivial=lambda l, a: "SKIP" not in a, label="histories")
     ctx.notes["exhaustive_subdomains"] = ["all 512 TCP flag values x {seq,ack,urgptr} zero/non-zero", "all 8 IPv4 flag combinations x id {0,1,65535} x tos",
                                           "option (kind,length) probes: %s kinds x lengths 0..41" % ("256" if not ctx.quick() else "a sample of")]
